@@ -6,7 +6,7 @@
      len / Count with exactly one positional argument -> Aggregate(visit(arg0), 0, lambda acc,v: acc+1)
      Sum / Max / Min with exactly one positional argument (after fix F7; before it: any number, and
      IndexError for zero)                                -> Aggregate(visit(arg0), 0, <lambda>)
-  otherwise generic_visit.  Keywords of a rewritten call are dropped (as in the code).
+  otherwise generic_visit.  A call with keyword arguments or a starred argument has another argument count: generic_visit.
 -/
 import Fadl.Syntax
 namespace Fadl
@@ -27,6 +27,10 @@ def shortcutLam (n : String) : Option Expr :=
   else if n = "Min" then some lamMin
   else none
 
+def isStarredArg : Expr → Bool
+  | .op .starred _ => true
+  | _ => false
+
 mutual
 def aggT : Expr → Expr
   | .name i => .name i
@@ -36,7 +40,8 @@ def aggT : Expr → Expr
     let args' := aggTL args
     match f, args' with
     | .name n, [a'] =>
-      match shortcutLam n with
+      -- one positional argument and nothing else: a keyword or a starred argument makes it a call with another argument count
+      match (if kwn.isEmpty && !isStarredArg a' then shortcutLam n else none) with
       | some l => aggCall a' l
       | none => .call (.name n) [a'] kwn (aggTL kwv)
     | _, _ => .call (aggT f) args' kwn (aggTL kwv)
